@@ -14,7 +14,8 @@
         op ::= (0 size) Resize | (1 off size x<value>) Set | (2 off val) Set32
              | (3 dst src len) Copy | (4 off size) GetCopy | (5) Len | (6 newSize) memoryGasCost
              | (7) Free; NewMemory
-        -> (0) done | (1 x<bytes>) | (2 n) | (3 class)   classes: 1 panic, 2 gas uint overflow
+        -> (0) done | (1 x<bytes>) | (2 n) | (3 class)   classes: 1 panic, 2 gas uint overflow,
+           3 Copy/GetCopy not covered by a preceding Resize (outside the interpreter's contract, not executed)
    case (2 ...) / (3 ...)   whole-EVM independence and precompile-cache cases: decided by the
         direct Go oracle only; the model just echoes the case kind. *)
 From GV Require Import Lib.Sx EVM.StackArena EVM.MemoryPool.
